@@ -178,7 +178,7 @@ def expr(e, o, ctx):
         return _wrap(body) if ctx >= 3 else body
     if k == "not":
         inner = e[1]
-        if inner[0] in ("test", "call", "paren"):
+        if inner[0] in ("test", "call", "paren", "littest"):
             return [o.words["not"], SP] + expr(inner, o, 3)
         return [o.words["not"], SP] + _wrap(expr(inner, o, 0))
     if k == "paren":
@@ -191,6 +191,8 @@ def expr(e, o, ctx):
         return query(e[1], o)
     if k == "call":
         return call(e, o)
+    if k == "littest":
+        return literal(e[1], False)
     raise ValueError(e)
 
 
